@@ -383,7 +383,9 @@ class Run:
             if v is None or v.startswith("!"):
                 continue
             vals = [hexf(v)] if kd == "F" else hexv(v)
-            if not all(math.isfinite(t) for t in vals):
+            # (a value beyond 1e150 counts as an overflow of the user's function: its square is not representable, and the package's own
+            # arithmetic — g.g, theta |d|^2 — overflows through no fault of its own)
+            if not all(math.isfinite(t) and abs(t) < 1e150 for t in vals):
                 return False
         for (_, _, _, g) in self.rec.FD:
             if not all(math.isfinite(t) for t in hexv(g)):
